@@ -13,7 +13,7 @@ EXPLANATION = (
     "seek_physical overwrites the cursor without reading it and assigns nothing on its error path; that iterators are built "
     "with fresh queues and read = 0; that nothing but the constructor writes the reader's descriptors; and that the only "
     "state that survives an operation — the page cache — is invalidated before it is overwritten, published only after "
-    "CRC validation and served only when verified (C07 clauses). Not decided: equality of results on concrete files.")
+    "CRC validation and served only when verified (C07 clauses). Also an inventory of reader state: the fields of PagedReader / E57Reader that change after construction are a reviewed set (a new remembered failure or result cache is unreviewed history). Not decided: equality of results on concrete files.")
 
 
 def run(ctx):
